@@ -3,6 +3,7 @@ import Driver.Topics
 import Driver.Tx
 import Driver.Util
 import Driver.Gateway
+import Driver.Cli
 
 open Driver
 
@@ -38,6 +39,15 @@ partial def caseLoop (h : IO.FS.Stream) (out : IO.FS.Stream) (f : String → Lis
     let k ← flush
     caseLoop h out f (some line) #[] (n + 1) (nout + k)
 
+partial def stLoop {σ} (h : IO.FS.Stream) (out : IO.FS.Stream) (f : σ → String → σ × List String) (st : σ)
+    (n nout : Nat) : IO (Nat × Nat) := do
+  let line ← h.getLine
+  if line.isEmpty then return (n, nout)
+  let line := (line.dropRightWhile (fun c => c == '\n' || c == '\r'))
+  let (st', res) := f st line
+  for r in res do out.putStrLn r
+  stLoop h out f st' (n + 1) (nout + res.length)
+
 def main (args : List String) : IO UInt32 := do
   let stdin ← IO.getStdin
   let stdout ← IO.getStdout
@@ -65,6 +75,10 @@ def main (args : List String) : IO UInt32 := do
   | ["gateway"] =>
     let (n, k) ← caseLoop stdin stdout gatewayCase none #[] 0 0
     stdout.putStrLn s!"SUMMARY gateway cases={n} reports={k}"
+    return 0
+  | ["cli"] =>
+    let (n, k) ← stLoop stdin stdout cliLine ({} : CliState) 0 0
+    stdout.putStrLn s!"SUMMARY cli lines={n} reports={k}"
     return 0
   | ["tx"] =>
     let (n, k) ← caseLoop stdin stdout txCase none #[] 0 0
